@@ -301,6 +301,41 @@ def catalogue():
     def _(wn):
         cond = C.ValueCondition(wn.get_link("p4"), "status", "=", LS.Closed)
         wn.add_control("rule2", C.Rule(cond, [act(wn, "p3", "status", LS.Open)], priority=3))
+    # ---------------- states reached through an edit history
+    @dev("j_leak_removed")
+    def _(wn):
+        j = wn.get_node("J3"); j.add_leak(wn, area=1.5e-4, discharge_coeff=0.6, start_time=3600, end_time=7200); j.remove_leak(wn)
+    @dev("t_leak_removed", "t_leak")
+    def _(wn):
+        t = wn.get_node("T1"); t.add_leak(wn, area=2.5e-4, discharge_coeff=0.7, start_time=0, end_time=None); t.remove_leak(wn)
+    @dev("h_demand_removed")
+    def _(wn):
+        j = wn.get_node("J2"); j.add_demand(0.004, "pat2", "ind"); del j.demand_timeseries_list[0]
+    @dev("h_pattern_unused")
+    def _(wn): wn.add_pattern("never_used", [2.0, 0.0, 1.0])
+    # ---------------- nested rule conditions, a non-wrapping pattern, report lists
+    @dev("r_or_of_and", "rule1")
+    def _(wn):
+        a = C.ValueCondition(wn.get_node("T1"), "level", "<", 2.0); b = C.SimTimeCondition(wn, ">=", 7200)
+        c = C.ValueCondition(wn.get_node("J3"), "pressure", ">", 40.0)
+        wn.add_control("rule1", C.Rule(C.OrCondition(C.AndCondition(a, b), c), [act(wn, "p3", "status", LS.Closed)], priority=3))
+    @dev("r_and_of_or", "rule1")
+    def _(wn):
+        a = C.ValueCondition(wn.get_node("T1"), "level", "<", 2.0); b = C.SimTimeCondition(wn, ">=", 7200)
+        c = C.ValueCondition(wn.get_node("J3"), "pressure", ">", 40.0)
+        wn.add_control("rule1", C.Rule(C.AndCondition(C.OrCondition(a, b), c), [act(wn, "p3", "status", LS.Closed)], priority=3))
+    @dev("r_three_and", "rule1")
+    def _(wn):
+        a = C.ValueCondition(wn.get_node("T1"), "level", "<", 2.0); b = C.SimTimeCondition(wn, ">=", 7200)
+        c = C.ValueCondition(wn.get_node("J3"), "pressure", ">", 40.0)
+        wn.add_control("rule1", C.Rule(C.AndCondition(C.AndCondition(a, b), c), [act(wn, "p3", "status", LS.Closed)], [act(wn, "p3", "status", LS.Open)], priority=3))
+    @dev("pat_nowrap")
+    def _(wn):
+        wn.add_pattern("pnw", wntr.network.elements.Pattern("pnw", [1.0, 0.5, 2.0], time_options=wn.options.time, wrap=False))
+        wn.get_node("J2").demand_timeseries_list[0].pattern_name = "pnw"
+    @dev("o_report_lists")
+    def _(wn):
+        wn.options.report.nodes = ["J1", "J2"]; wn.options.report.links = ["p1"]
     # ---------------- legal values that are falsy (0, 0.0): every `x or default` / `if x:` slip shows on exactly these
     @dev("z_pump_speed0", "p1kind")
     def _(wn):
@@ -391,7 +426,7 @@ NAMED_PAIRS = [("o_reaction", "p_coeffs"), ("o_reaction", "t_bulk"), ("o_qual_ch
                ("o_time", "z_time0"), ("o_pdd", "z_elev0"), ("o_qual_chem", "z_source0"), ("o_energy", "z_pump_speed0")]
 
 
-NOT_IN_INP = ("j_leak", "t_leak", "r_relative", "k_junction_head")      # WNTR-only: no place in the INP format
+NOT_IN_INP = ("j_leak", "t_leak", "r_relative", "k_junction_head", "j_leak_removed", "t_leak_removed", "pat_nowrap")      # WNTR-only: no place in the INP format
 
 
 def enumerate_specs(dmax, keep=None):
